@@ -404,3 +404,50 @@ func vh_lease_rearm() {
 	}
 	vReach("rearm.end")
 }
+
+// vh_gate_faults: the membership case of leaderLoop with the gate open and the
+// log store failing. When the configuration entry could not be stored the
+// request is answered with an error, the leader steps down, and the server's
+// latest configuration (which drives its elections, its quorum and - were it
+// to lead again without a restart - its commit rule) is still the one its log
+// holds.
+func vh_gate_faults() {
+	w := 3
+	r, env := vNewRaft("L", vRaftOpts{n: 2, w: w, shaped: true})
+	vAssume(r.lastSnapshotIndex == vBase() && env.logs.low == vBase()+1 && env.logs.high == vBase()+2)
+	vAssume(vInvBasic(r, env))
+	vAssume(vInvLog(r, env, w))
+	vMakeLeader(r, "L", 0)
+	vSpawnPolicy(false)
+	lastIndex := r.getLastIndex()
+	cm := r.leaderState.commitment
+	vAssume(r.configurations.latestIndex == r.configurations.committedIndex && r.commitIndex >= cm.startIndex) // gate open
+	fut := &configurationChangeFuture{req: configurationChangeRequest{command: ConfigurationChangeCommand(vU8("cmd")), serverID: ServerID(vStr("rid")), serverAddress: ServerAddress(vStr("raddr")), prevIndex: vU64("prevIndex")}}
+	fut.init()
+	pre := vSnap(r, env)
+	preLatest := r.configurations.latest.Clone()
+	env.logs.failOn, env.logs.writesOnly = true, true // a failing read of a committed entry panics by design (processLogs)
+	vGo(func() { r.configurationChangeCh <- fut })
+	vRunUntilBlocked(r.leaderLoop)
+	env.logs.failOn = false
+	post := vSnap(r, env)
+	done, err := vFutureErr(&fut.deferError)
+	failedStore := false
+	for _, c := range env.logs.calls {
+		if c.op == opStoreLogs && !c.ok {
+			failedStore = true
+		}
+	}
+	if !failedStore {
+		vReach("gatefault.end")
+		return
+	}
+	vCover("gatefault.store-failed")
+	vAssert(done && err != nil, "C17.gatefault.failed-append-answers-the-request")
+	vAssert(r.getState() != Leader, "C07.gatefault.leader-steps-down")
+	vAssert(post.logIdx == pre.logIdx && r.getLastIndex() == lastIndex, "C07.gatefault.log-unchanged")
+	// no phantom configuration: what the server believes to be the latest configuration is in its log
+	vAssert(post.latestIndex == pre.latestIndex && vSameServers(post.latest, preLatest.Servers), "C07.gatefault.latest-configuration-is-in-the-log")
+	vAssert(post.latestIndex <= r.getLastIndex(), "C05.gatefault.quorum-configuration-is-in-the-log")
+	vReach("gatefault.end")
+}
